@@ -695,12 +695,12 @@ def nan_stream(ctx, n):
         k = rng.randint(1, min(5, N))
         events = [0] + sorted(rng.sample(range(1, N), min(k - 1, N - 1))) + [N]
         shared = float('nan')
-        style = rng.choice(['shared', 'fresh', 'np', 'array'])
+        style = rng.choice(['shared', 'fresh', 'np', 'array', 'ndarray'])
 
         def nan():
             if style == 'shared':
                 return shared
-            if style == 'fresh':
+            if style in ('fresh', 'ndarray'):
                 return float('nan')
             if style == 'np':
                 return np.float64('nan')
@@ -708,6 +708,23 @@ def nan_stream(ctx, n):
         pool = [1.5, 2.5] if style != 'array' else [ComparableArrayWrapper(np.array([1.0, 2.0]))]
         vals = [nan() if rng.random() < 0.5 else rng.choice(pool) for _ in events[:-1]]
         case = dict(kind='nan', style=style, events=events, nanmask=[isinstance(v, float) and v != v for v in vals])
+        if style == 'ndarray':
+            # the values handed over as one float array (what sensor_to_categorical passes): the series must be built
+            # and must read back, dump for dump, what was given (NaN where NaN was given)
+            vals = np.array([float('nan') if isinstance(v, float) and v != v else v for v in vals])
+            try:
+                c0 = CategoricalData(vals, events)
+                pd = [c0[d] for d in range(N)]
+            except Exception as e:   # noqa: BLE001
+                bad.append((case, f'series built from the float array {vals.tolist()} with events {events}: '
+                                  f'{type(e).__name__}: {e}'))
+                ctx.tag('nan-ndarray-raised')
+                continue
+            want = [vals[j] for j in range(len(vals)) for _ in range(events[j + 1] - events[j])]
+            if any(not (a == b or (a != a and b != b)) for a, b in zip(pd, want)):
+                bad.append((case, f'series built from the float array {vals.tolist()} with events {events} reads '
+                                  f'{pd} dump by dump'))
+                continue
         try:
             c = CategoricalData(vals, events)
             steps = [('new', c)]
